@@ -113,7 +113,7 @@ def zexpr(node, names):
         return f'({v})' if v < 0 else str(v)
     if isinstance(node, ast.Name) and node.id in names:
         return names[node.id]
-    if isinstance(node, ast.Attribute) and ast.unparse(node) in names:
+    if isinstance(node, (ast.Attribute, ast.Call)) and ast.unparse(node) in names:
         return names[ast.unparse(node)]
     if isinstance(node, ast.UnaryOp) and isinstance(node.op, ast.USub):
         return f'(- {zexpr(node.operand, names)})'
@@ -162,9 +162,15 @@ def len_expr(node, env, names):
         st = f'({step})' if step < 0 else str(step)
         return (f'(pyslice_len {len_expr(node.value, env, names)} {_opt(sl.lower, names)} '
                 f'{_opt(sl.upper, names)} {st})')
+    if isinstance(node, (ast.List, ast.Tuple)) and all(not isinstance(e, ast.Starred) for e in node.elts) \
+            and all(isinstance(e, (ast.Constant, ast.Attribute, ast.Name)) and ast.unparse(e) not in env for e in node.elts):
+        return str(len(node.elts))
     if isinstance(node, ast.Call):
         fn = ast.unparse(node.func)
         a = node.args
+        if fn == 'np.unique' and len(a) == 1 and not node.keywords and '__uniq__' in env:
+            len_expr(a[0], env, names)      # the argument must itself be a recognised array
+            return env['__uniq__']
         if fn == 'np.pad' and len(a) >= 2:
             w = a[1]
             if isinstance(w, (ast.List, ast.Tuple)) and len(w.elts) == 2:
@@ -327,11 +333,67 @@ def guards(repo):
             raise TranslateError('peak_filling: statement changed or missing: ' + need)
     src = ast.unparse(fn)
     for need in ('half_windows = np.ceil(np.logspace(np.log10(half_win), 0, max_iter)).astype(int)',
-                 'half_windows[0] = half_win',
-                 'y_truncated = _directional_min_moving_avg(y_truncated, sections, half_win)',
-                 'y_truncated = _directional_min_moving_avg(y_truncated[::-1], sections, half_win)[::-1]'):
+                 'half_windows[0] = half_win'):
         if need not in src:
             raise TranslateError('peak_filling: statement changed or missing: ' + need)
+    # the kernel calls: first argument y_truncated (or its reversed view), third half_win; the SECOND
+    # argument (data_len) is translated, per branch
+    calls = [n for n in ast.walk(fn) if isinstance(n, ast.Call) and ast.unparse(n.func) == '_directional_min_moving_avg']
+    if len(calls) != 2 or any(len(c.args) != 3 or c.keywords for c in calls):
+        raise TranslateError('peak_filling: expected two calls _directional_min_moving_avg(y, data_len, half_win)')
+    if sorted(ast.unparse(c.args[0]) for c in calls) != ['y_truncated', 'y_truncated[::-1]'] \
+            or any(ast.unparse(c.args[2]) != 'half_win' for c in calls) \
+            or ast.unparse(calls[0].args[1]) != ast.unparse(calls[1].args[1]):
+        raise TranslateError('peak_filling: kernel call arguments changed')
+    dl = calls[0].args[1]
+    out.append('Definition pf_data_len (sections : Z) : Z := ' + zexpr(dl, {'sections': 'sections'}) + '.')
+    # nothing at top level may rebind sections after the branches
+    for st in later:
+        for n in ast.walk(st):
+            if isinstance(n, (ast.Assign, ast.AugAssign)):
+                for t in (n.targets if isinstance(n, ast.Assign) else [n.target]):
+                    for nm in ast.walk(t):
+                        if isinstance(nm, ast.Name) and nm.id == 'sections' and isinstance(nm.ctx, ast.Store):
+                            raise TranslateError('peak_filling: sections is rebound after the branch on scalar_sections')
+    # ---- the branch for a SEQUENCE of split indices (k = len(sections), uniq = len(np.unique(...)))
+    arr = {'sections': 'k', '__uniq__': 'uniq'}
+    ints = {'len(sections)': 'k', 'self._size': 'size', 'left_pad': 'left_pad', 'right_pad': 'right_pad'}
+    seq_stmts = []
+    for st in first.orelse:           # statements after _check_scalar in the `sections is not None` branch
+        if isinstance(st, ast.Assign) and not (isinstance(st.targets[0], ast.Tuple)
+                                              and ast.unparse(st.value).startswith('_check_scalar(sections,')):
+            seq_stmts.append(st)
+    seq_stmts += list(sc[0].orelse)
+    for st in seq_stmts:
+        if not isinstance(st, ast.Assign):
+            raise TranslateError('peak_filling (sequence branch): unsupported statement ' + ast.unparse(st)[:80])
+        if len(st.targets) != 1 or not isinstance(st.targets[0], ast.Name):
+            raise TranslateError('peak_filling (sequence branch): unsupported target ' + ast.unparse(st)[:80])
+        tgt = st.targets[0].id
+        try:
+            ln = len_expr(st.value, arr, ints)
+            arr[tgt] = ln
+            ints['len(' + tgt + ')'] = ln
+            ints.pop(tgt, None)
+        except TranslateError:
+            iv = zexpr(st.value, ints)          # fail closed if neither an array nor an integer expression
+            ints[tgt] = iv
+            arr.pop(tgt, None)
+            ints.pop('len(' + tgt + ')', None)
+    if 'y_truncated' not in arr:
+        raise TranslateError('peak_filling (sequence branch): y_truncated is not allocated')
+    l1s = _assigned_len([st for st in later if isinstance(st, ast.Assign)], 'y_truncated',
+                        {'y_truncated': arr['y_truncated']}, pn)
+    out.append(f'Definition pf_seq_y_len (k uniq left_pad right_pad : Z) : Z := {l1s}.')
+    try:
+        dls = zexpr(dl, ints)
+        is_int = True
+    except TranslateError:
+        if not any(isinstance(n, ast.Name) and n.id in arr for n in ast.walk(dl)):
+            raise
+        dls, is_int = '0', False                # data_len is (built from) an ndarray: not an integer
+    out.append(f'Definition pf_seq_data_len_is_int : bool := {"true" if is_int else "false"}.')
+    out.append(f'Definition pf_seq_data_len (k uniq size : Z) : Z := {dls}.')
 
     # ---- _padded_rolling_std
     tree, _ = _parse('pybaselines/classification.py', repo)
